@@ -390,10 +390,18 @@ class FeatNormalizerList:
         return df_dX0T
 
     def ueg_vector(self, rho=1.0):
+        # The inhomogeneity variable of the uniform gas is 1 for the
+        # meta-GGA modes (alpha + 5p/3 for npa, tau / tau_ueg for nst)
+        # and 0 for the GGA modes; evaluate the forward pass there so that
+        # the reported factors are the ones actually applied.
+        inh_ueg = 1.0 if self.slmode in ["npa", "nst"] else 0.0
+        x = np.ones(1)
+        rho_arr = rho * np.ones(1)
+        inh_arr = inh_ueg * np.ones(1)
         norms = []
         for n in self._normalizers:
             if n is None:
                 norms.append(1.0)
             else:
-                norms.append(n.get_ueg(rho))
+                norms.append(n.fill_fwd(x, rho_arr, inh_arr)[0])
         return np.array(norms)
